@@ -115,6 +115,32 @@ def r5_trigger(pre: Snapshot, targets: Sequence[str], focks: Sequence[str]) -> b
     return False
 
 
+def r5_sum_ray_differs(pre: Snapshot, targets: Sequence[str], want: np.ndarray) -> bool:
+    """the ray obtained by summing the amplitudes of the traced-out subsystems (vector-level blocks)
+    is not the true reduced state `want` (e.g. a state entangled only at the 1e-5 level)"""
+    bidx = sorted({pre.where[t] for t in targets})
+    blocks = [pre.blocks[i] for i in bidx]
+    if any(b.rep == "matrix" for b in blocks):
+        return False
+    members, dims = [], []
+    psi = np.ones(1, complex)
+    for b in blocks:
+        v = np.asarray(b.array, complex).reshape(-1) if b.rep == "vector" else np.linalg.eigh(b.rho())[1][:, -1]
+        psi = np.kron(psi, v)
+        members += b.members
+        dims += b.dims
+    other = tuple(i for i, m in enumerate(members) if m not in targets)
+    if not other:
+        return False
+    c = psi.reshape(dims).sum(axis=other)
+    kept = [m for m in members if m in targets]
+    c = np.transpose(c, [kept.index(t) for t in targets]).reshape(-1)
+    n = np.linalg.norm(c)
+    if n < 1e-12:
+        return True
+    return bool(ref.trace_distance(ref.pure_rho(c / n), want) > 1e-9)
+
+
 def r5_zero_sum(pre: Snapshot, targets: Sequence[str]) -> bool:
     """amplitude-sum over the traced-out subsystems vanishes (vector-level blocks only)"""
     bidx = sorted({pre.where[t] for t in targets})
@@ -534,7 +560,8 @@ class Machine:
         site["mixed_reduced"] = bool(ref.purity(want) < 1 - 1e-9)
         involved = [pre.blocks[i] for i in {pre.where[t] for t in targets}]
         merged_is_vector = all(b.rep != "matrix" for b in involved) and sum(len(b.members) for b in involved) > len(targets)
-        site["r5_trigger"] = bool(merged_is_vector and (site["mixed_reduced"] or r5_zero_sum(pre, targets)))
+        # root-cause model of R5: what the amplitude-sum "partial trace" returns differs from the truth
+        site["r5_trigger"] = bool(merged_is_vector and (site["mixed_reduced"] or r5_zero_sum(pre, targets) or r5_sum_ray_differs(pre, targets, want)))
         ntraced = sum(len(pre.blocks[b].members) for b in {pre.where[t] for t in targets}) - len(targets)
         site["ntraced"] = min(ntraced, 3)
         try:
